@@ -449,6 +449,19 @@ def f5_macros(tier: str, seed: int) -> Iterator[tuple[str, dict[str, Any]]]:
                                {"imports": ["./sub/l1.exps"], "macros": macros[:1], "routines": [("def", 0, body)],
                                 "files": {"sub/l1.exps": {"imports": ["../l2.exps"], "macros": macros[1:2]},
                                           "l2.exps": {"macros": macros[2:]}}})
+    # nested parameter passing with swapped / rotated names
+    inner2 = ("macro", "inner", ["$a", "$b"], [op("use", C("$a"), C("$b"))])
+    yield "F5.swap.depth2", {"macros": [inner2, ("macro", "outer", ["$a", "$b"], [("macrocall", "inner", [C("$b"), C("$a")])])],
+                             "routines": [("def", 0, [("macrocall", "outer", [1, 2]), ("ctrl", "end")])]}
+    yield "F5.swap.depth3", {"macros": [inner2, ("macro", "mid", ["$b", "$a"], [("macrocall", "inner", [C("$b"), C("$a")])]),
+                                        ("macro", "outer", ["$a", "$b"], [("macrocall", "mid", [C("$a"), C("$b")]),
+                                                                         ("macrocall", "inner", [C("$b"), C("K")])])],
+                             "routines": [("def", 0, [("macrocall", "outer", [C("$X"), ("str", "s")]), ("ctrl", "end")])]}
+    inner3 = ("macro", "in3", ["$a", "$b", "$c"], [op("use3", C("$a"), C("$b"), C("$c")),
+                                                     ("if", False, [("c_op", C("$c"), "==", C("$a"), False)], [op("t", C("$b"))], [], None)])
+    yield "F5.rotate", {"macros": [inner3, ("macro", "rot", ["$a", "$b", "$c"], [("macrocall", "in3", [C("$b"), C("$c"), C("$a")])])],
+                        "routines": [("def", 0, [("macrocall", "rot", [1, 2, 3]), ("macrocall", "rot", [C("$c"), C("$a"), 9]),
+                                                 ("ctrl", "end")])]}
     # lookup paths: first existing candidate in the given order wins; relative and absolute imports ignore them
     def lib(tag: str) -> dict[str, Any]:
         return {"macros": [("macro", "m", [], [op(tag)])]}
